@@ -174,21 +174,28 @@ Proof.
 Qed.
 
 (* ---- Selecting ---- *)
-Lemma selecting_select_spin s pg act sel n s' b pg' sel' :
-  selecting_select dops sops s pg act sel n = Ok (s', Spin b, pg', sel') ->
+Lemma selecting_select_offset_spin s pg act sel n s' b pg' sel' :
+  selecting_select_offset dops sops s pg act sel n = Ok (s', Spin b, pg', sel') ->
   s' = s /\ b <> BIgnore /\ (b = BBell -> pg' = pg /\ sel' = sel).
 Proof.
-  intros H. unfold selecting_select in H. destruct sel as [p|y|sym0].
+  intros H. unfold selecting_select_offset in H. destruct sel as [p|y|sym0].
   - bind_ok H cands Hc. destruct (nth_error cands _).
     + bind_ok H c1 H1. discriminate.
     + inv_ok H. split; [reflexivity | split; [discriminate | auto]].
-  - bind_ok H r Hr. destruct r as [y' res]. destruct res.
+  - destruct (Nat.leb _ _); [inv_ok H; split; [reflexivity | split; [discriminate | auto]]|].
+    bind_ok H r Hr. destruct r as [y' res]. destruct res.
     + bind_ok H c1 H1. discriminate.
     + inv_ok H. split; [reflexivity | split; discriminate].
-  - bind_ok H res Hr. destruct res.
+  - bind_ok H m Hm. destruct (Nat.leb _ _); [inv_ok H; split; [reflexivity | split; [discriminate | auto]]|].
+    bind_ok H res Hr. destruct res.
     + bind_ok H c1 H1. discriminate.
     + inv_ok H. split; [reflexivity | split; discriminate].
 Qed.
+
+Lemma selecting_select_spin s pg act sel n s' b pg' sel' :
+  selecting_select dops sops s pg act sel n = Ok (s', Spin b, pg', sel') ->
+  s' = s /\ b <> BIgnore /\ (b = BBell -> pg' = pg /\ sel' = sel).
+Proof. unfold selecting_select. apply selecting_select_offset_spin. Qed.
 
 Lemma selecting_next_spin s ev pg act sel s' b pg' sel' :
   selecting_next dops sops s ev pg act sel = Ok (s', Spin b, pg', sel') ->
@@ -554,14 +561,20 @@ Proof.
   - split_if H; [bind_ok H s2 H2; apply with_com_commit_buf in H2|]; inv_ok H; [exact H2 | reflexivity].
 Qed.
 
+Lemma selecting_select_offset_cb s pg act sel n s' t pg' sel' :
+  selecting_select_offset dops sops s pg act sel n = Ok (s', t, pg', sel') -> commit_buf s' = commit_buf s.
+Proof.
+  intros H. unfold selecting_select_offset in H. destruct sel as [p|y|sym0].
+  - bind_ok H cands Hc. destruct (nth_error cands _); [bind_ok H c1 H1|]; now inv_ok H.
+  - destruct (Nat.leb _ _); [now inv_ok H|].
+    bind_ok H r Hr. destruct r as [y' res]. destruct res; [bind_ok H c1 H1|]; now inv_ok H.
+  - bind_ok H m Hm. destruct (Nat.leb _ _); [now inv_ok H|].
+    bind_ok H res Hr. destruct res; [bind_ok H c1 H1|]; now inv_ok H.
+Qed.
+
 Lemma selecting_select_cb s pg act sel n s' t pg' sel' :
   selecting_select dops sops s pg act sel n = Ok (s', t, pg', sel') -> commit_buf s' = commit_buf s.
-Proof.
-  intros H. unfold selecting_select in H. destruct sel as [p|y|sym0].
-  - bind_ok H cands Hc. destruct (nth_error cands _); [bind_ok H c1 H1|]; now inv_ok H.
-  - bind_ok H r Hr. destruct r as [y' res]. destruct res; [bind_ok H c1 H1|]; now inv_ok H.
-  - bind_ok H res Hr. destruct res; [bind_ok H c1 H1|]; now inv_ok H.
-Qed.
+Proof. unfold selecting_select. apply selecting_select_offset_cb. Qed.
 
 Lemma selecting_next_cb s ev pg act sel s' t pg' sel' :
   selecting_next dops sops s ev pg act sel = Ok (s', t, pg', sel') -> commit_buf s' = commit_buf s.
